@@ -30,7 +30,7 @@ from pyvc import api  # noqa: E402  (pure python, no z3 needed)
 
 def load_sidecars():
     api.REG = {"contracts": {}, "classes": {}, "invariants": {}, "lemmas": {}, "specs": {}, "ghosts": {}, "stmts": {}}
-    for p in sorted((VERIF / "contracts").glob("*.py")):
+    for p in sorted(Path(os.environ.get("PYVC_CONTRACTS") or (VERIF / "contracts")).glob("*.py")):
         spec = importlib.util.spec_from_file_location("contracts_" + p.stem, p)
         mod = importlib.util.module_from_spec(spec)
         spec.loader.exec_module(mod)
@@ -102,7 +102,8 @@ def compile_expr(src, pre_names):
 
 def base_ns():
     return {"forall": _forall, "exists": _exists, "abs": abs, "len": len, "range": range, "isinstance": isinstance,
-            "type": type, "np": np, "max": max, "min": min, "int": int, "float": float, "bool": bool}
+            "type": type, "np": np, "max": max, "min": min, "int": int, "float": float, "bool": bool,
+            "hint": lambda *_a: True}
 
 
 class ContractViolation(Exception):
@@ -207,7 +208,11 @@ _CLS = {}
 
 def _class_names():
     if not _CLS:
-        import black_it.search_space as ss
+        try:
+            import black_it.search_space as ss
+        except ImportError:      # library-model self-test: the probe package has no such module
+            _CLS["$none"] = object
+            return _CLS
         for n in dir(ss):
             o = getattr(ss, n)
             if isinstance(o, type):
